@@ -72,6 +72,27 @@ struct Run : ContBase {
         if (!ok) c.fail(FUNC, "hashtbl:put-failed", "put(%s) returned false, errno=%d", hexs(k).c_str(), errno);
         m[k] = e;
     }
+    // a put whose data pointer lies inside the table's own copy of a stored value (obtained with
+    // newmem=false), under the same key or another one: the stored bytes become that suffix
+    void do_put_alias(const std::string &k, const std::string &other) {
+        auto it = m.find(k);
+        if (it == m.end() || it->second.val.size() < 2) { do_put(k); return; }
+        Buf *kb = Buf::cstr(k);
+        size_t sz = 0; char *p = (char *)qhashtbl_get(t, kb->c(), &sz, false);
+        if (!p || sz != it->second.val.size()) { delete kb; c.fail(FUNC, "hashtbl:get-missing", "get(%s,newmem=false) before an aliasing put returned %s", hexs(k).c_str(), p ? "a wrong size" : "NULL"); }
+        size_t off = (size_t)s.range(0, (long)sz - 1);
+        bool same = s.chance(2, 3);
+        const std::string &tk = same ? k : other;
+        Buf *tb = Buf::cstr(tk);
+        Ent e{it->second.val.substr(off), it->second.isstr};
+        errno = poison;
+        bool ok = qhashtbl_put(t, tb->c(), p + off, sz - off);
+        delete kb; delete tb;
+        c.op("put(%s, pointer %zu bytes into the stored value of %s, %zu bytes)", hexs(tk, 12).c_str(), off, same ? "the same key" : hexs(k, 12).c_str(), sz - off);
+        if (!ok) c.fail(FUNC, "hashtbl:put-failed", "put(%s) with data inside the table's own value buffer returned false, errno=%d", hexs(tk).c_str(), errno);
+        m[tk] = e;
+        full_compare("aliasing put");
+    }
     // calls the library documents as refused (EINVAL): they must fail, say so, and change nothing
     void do_refused(const std::string &k) {
         int kind = (int)s.range(0, 5);
@@ -188,7 +209,7 @@ struct Run : ContBase {
         if (!t) c.fail(FUNC, "hashtbl:ctor", "qhashtbl(%zu,0) returned NULL", range);
         int maxops = c.tier ? 3000 : 500, ops = 0;
         while (!s.exhausted() && ops++ < maxops) {
-            int o = (int)s.pick({30, 16, 22, 2, 1, 6, 1, 2, 2});
+            int o = (int)s.pick({30, 16, 22, 2, 1, 6, 1, 2, 2, 2});
             const char *what = "op";
             switch (o) {
                 case 0: do_put(universe[s.range(0, (long)U - 1)]); what = "put"; break;
@@ -198,6 +219,7 @@ struct Run : ContBase {
                 case 4: qhashtbl_clear(t); c.op("clear()"); note_outlived(); m.clear(); verify_kept(false); what = "clear"; break;
                 case 5: do_walk(); what = "walk"; break;
                 case 8: do_refused(universe[s.range(0, (long)U - 1)]); what = "refused call"; break;
+                case 9: { const std::string &a = universe[s.range(0, (long)U - 1)]; const std::string &b = universe[s.range(0, (long)U - 1)]; do_put_alias(a, b); what = "aliasing put"; break; }
                 case 6: { if (!devnull) devnull = fopen("/dev/null", "w"); bool ok = qhashtbl_debug(t, devnull); c.op("debug()"); if (!ok) c.fail(FUNC, "hashtbl:debug", "debug() returned false"); what = "debug"; break; }
                 default: c.op("compare-all"); full_compare("full comparison"); what = "compare";
             }
